@@ -84,7 +84,7 @@ def override_level(ctx, net, mlvl):
     return s_ite(L < 0, 0, s_ite(L > 4, 4, L))
 
 
-def o1_route_step(ctx, lx, ld, custom, multicast, mlvl=None, twice=False):
+def o1_route_step(ctx, lx, ld, custom, multicast, mlvl=None, twice=False, acktype=False):
     from circuitpython_nrf24l01.network.structs import RF24NetworkHeader
     clock = fresh_env(ctx)
     x = sym_addr(ctx, "X", lx)
@@ -104,8 +104,14 @@ def o1_route_step(ctx, lx, ld, custom, multicast, mlvl=None, twice=False):
     p0 = override_level(ctx, net, mlvl if mlvl != "before" else None)
     sent0 = len(radio.sent)
     body = ctx.bytes("body", 2)
-    ok = net.send(RF24NetworkHeader(d, 0), body)
-    ctx.check(ok == True, "send() succeeds when the first hop acknowledges")  # noqa: E712
+    # acktype: a message type that makes the origin wait for a NETWORK_ACK when the route has a relay (here none ever arrives:
+    # what send() answers is C13's subject; where the frame goes and what X listens on afterwards is this property's)
+    mtype = ctx.int("type", 65, 127) if acktype else 0
+    ok = net.send(RF24NetworkHeader(d, mtype), body)
+    if acktype:
+        ctx.check(ok == (NS.next_hop(x, d) == d), "send() of an ack-type message: True between neighbours, False without NETWORK_ACK")
+    else:
+        ctx.check(ok == True, "send() succeeds when the first hop acknowledges")  # noqa: E712
     sent = radio.sent[sent0:]
     ctx.check(len(sent) == 1, "exactly one frame is transmitted")
     if len(sent) != 1:
@@ -131,8 +137,9 @@ def o1_route_step(ctx, lx, ld, custom, multicast, mlvl=None, twice=False):
         d2 = sym_addr(ctx, "E", ctx.choice("second_dest_level", 5))
         ctx.assume(s_and(d2 != x, d2 != d))
         s1 = len(radio.sent)
-        ok2 = net.send(RF24NetworkHeader(d2, 0), body)
-        ctx.check(ok2 == True, "a second send() succeeds")  # noqa: E712
+        ok2 = net.send(RF24NetworkHeader(d2, mtype), body)
+        if not acktype:
+            ctx.check(ok2 == True, "a second send() succeeds")  # noqa: E712
         sent2 = radio.sent[s1:]
         ctx.check(len(sent2) == 1, "second message: exactly one frame is transmitted")
         if len(sent2) == 1:
@@ -225,6 +232,9 @@ def jobs(tier):
             if (lx + 2 * ld) % 3 == 0 or tier != "quick":
                 out.append(Job("O1-routing-step-after-a-move", o1_route_step, dict(lx=lx, ld=ld, custom=False, multicast=True, mlvl="before"),
                                cost=(1 + lx) * (1 + ld) * 3))
+            if (lx + ld) % 3 == 1 or tier != "quick":
+                out.append(Job("O1-routing-step-ack-type", o1_route_step, dict(lx=lx, ld=ld, custom=False, multicast=True, acktype=True,
+                                                                                twice=(lx + ld) % 2 == 0), cost=(1 + lx) * (1 + ld) * 4))
             # the multicast_level override moves pipe 0 to another level and must leave unicast routing alone
             out.append(Job("O1-routing-step", o1_route_step, dict(lx=lx, ld=ld, custom=False, multicast=True, mlvl="sym"),
                            cost=(1 + lx) * (1 + ld) * 2))
